@@ -126,13 +126,14 @@ impl Content {
 
 #[derive(Clone, Debug, PartialEq, Eq, Hash)]
 pub enum AOp {
-    /// create or overwrite DIRS[dir]/NAMES[name]
-    Write { dir: u8, name: u8, content: Content },
+    /// create or overwrite <folder>/NAMES[name]; the folder is DIRS[dir] or, for odd `dir`, an
+    /// existing folder picked by `dir`
+    Write { dir: u16, name: u8, content: Content },
     /// overwrite an existing file
     Modify { pick: u16, content: Content },
     Delete { pick: u16 },
-    /// rename/move an existing file to DIRS[dir]/NAMES[name]
-    MoveFile { pick: u16, dir: u8, name: u8 },
+    /// rename/move an existing file to <folder>/NAMES[name] (folder chosen as for `Write`)
+    MoveFile { pick: u16, dir: u16, name: u8 },
     Mkdir { dir: u8 },
     RmDir { pick: u16 },
     /// rename/move an existing folder to DIRS[dir]
@@ -159,10 +160,10 @@ fn aop() -> impl Strategy<Value = AOp> {
     let d = 0u8..DIRS.len() as u8;
     let n = 0u8..NAMES.len() as u8;
     prop_oneof![
-        8 => (d.clone(), n.clone(), content()).prop_map(|(dir, name, content)| AOp::Write { dir, name, content }),
+        8 => (any::<u16>(), n.clone(), content()).prop_map(|(dir, name, content)| AOp::Write { dir, name, content }),
         6 => (any::<u16>(), content()).prop_map(|(pick, content)| AOp::Modify { pick, content }),
         4 => any::<u16>().prop_map(|pick| AOp::Delete { pick }),
-        6 => (any::<u16>(), d.clone(), n).prop_map(|(pick, dir, name)| AOp::MoveFile { pick, dir, name }),
+        6 => (any::<u16>(), any::<u16>(), n).prop_map(|(pick, dir, name)| AOp::MoveFile { pick, dir, name }),
         4 => d.clone().prop_map(|dir| AOp::Mkdir { dir }),
         3 => any::<u16>().prop_map(|pick| AOp::RmDir { pick }),
         5 => (any::<u16>(), d).prop_map(|(pick, dir)| AOp::MoveDir { pick, dir }),
@@ -251,6 +252,19 @@ impl Model {
             .filter(|p| (under(p, "src") && !under(p, "src/__isograph")) || under(p, "outside"))
             .cloned()
             .collect()
+    }
+
+    /// A folder for a new file: a universe folder (which may not exist) or an existing one.
+    fn folder(&self, sel: u16) -> String {
+        if sel % 4 == 0 {
+            return DIRS[(sel / 4) as usize % DIRS.len()].to_string();
+        }
+        let existing: Vec<&String> = self
+            .dirs
+            .iter()
+            .filter(|p| (under(p, "src") && !under(p, "src/__isograph")) || under(p, "outside"))
+            .collect();
+        existing[vcore::pick_index(sel, existing.len())].clone()
     }
 
     fn pickable_dirs(&self) -> Vec<String> {
@@ -424,7 +438,8 @@ pub fn resolve(a: &AScript, exclude: &BTreeSet<String>) -> (Script, ResolveStats
             };
             let candidate: Vec<Op> = match aop {
                 AOp::Write { dir, name, content } => {
-                    let d = DIRS[*dir as usize % DIRS.len()];
+                    let d = model.folder(*dir);
+                    let d = d.as_str();
                     let p = format!("{d}/{}", NAMES[*name as usize % NAMES.len()]);
                     if !model.dirs.contains(d) || model.dirs.contains(&p) {
                         drop("write:no-such-folder", &mut stats);
@@ -447,7 +462,8 @@ pub fn resolve(a: &AScript, exclude: &BTreeSet<String>) -> (Script, ResolveStats
                     }
                 },
                 AOp::MoveFile { pick: i, dir, name } => {
-                    let d = DIRS[*dir as usize % DIRS.len()];
+                    let d = model.folder(*dir);
+                    let d = d.as_str();
                     let to = format!("{d}/{}", NAMES[*name as usize % NAMES.len()]);
                     match pick(&model.pickable_files(), *i) {
                         Some(from) if model.dirs.contains(d) && !model.dirs.contains(&to) && *from != to => {
